@@ -197,7 +197,43 @@ def handleDownstream (args impl : List String) : Option Reply := do
            -- ordered collect), so the runs must be bit-identical
            agree := shapeOk && spec == "ok" && exact, spec }
 
+/-! ### `alignpools` -/
+
+structure ARun where
+  threads : Nat
+  align : List (Nat × Nat × Nat)     -- (max_rt, slope, intercept) bits per file
+  aligned : List Nat                 -- aligned_rt bits per PSM
+deriving Repr, BEq
+
+def pARun : P ARun := do
+  let threads ← nat
+  let align ← list (do let a ← nat; let b ← nat; let c ← nat; pure (a, b, c))
+  let aligned ← list nat
+  pure { threads, align, aligned }
+
+/-- `alignpools nfiles [n (file pep label u32 q u32 rt)…] [C threads…] reps`: the property's clause is a spec
+    over the reply list — every pool's (alignments, aligned_rt) equals the first (1-thread) pool's, bit for bit. -/
+def handleAlignPools (args impl : List String) : Option Reply := do
+  let (nfiles, n, pools, reps) ← run (do
+    let nfiles ← nat
+    let rows ← list (do let _ ← nat; let _ ← nat; let _ ← int; let _ ← nat; let _ ← nat; pure ())
+    let pools ← list nat
+    let reps ← nat
+    pure (nfiles, rows.length, pools, reps)) args
+  if impl == ["panic"] then pure { model := "no-panic", agree := false, spec := "bad:unexpected_panic" } else
+  match run (list pARun) impl with
+  | none => pure { model := "unparsable-impl-reply", agree := false, spec := "na" }
+  | some runs =>
+    let shapeOk := runs.map (·.threads) == pools.flatMap (fun t => List.replicate reps t) &&
+      runs.all (fun r => r.align.length == nfiles && r.aligned.length == n)
+    let spec :=
+      if !allEqualFirst (runs.map (fun r => r.align.map (·.1))) then "bad:max_rt_thread_dependent"
+      else if !allEqualFirst (runs.map (fun r => (r.align, r.aligned))) then "bad:align_thread_dependent"
+      else "ok"
+    pure { model := s!"{runs.length} {nfiles} {n} all-equal-to-pool-1", agree := shapeOk && spec == "ok", spec }
+
 def handle (op : String) (args impl : List String) : Option Reply :=
+  if op == "alignpools" then handleAlignPools args impl else
   if op == "downstream" then handleDownstream args impl else
   if op != "search" && op != "batch" then none else do
     let isBatch := op == "batch"
